@@ -88,27 +88,28 @@ Definition handshake_trace : list (bool * clabel) :=
     (true, CRcvd 0 3); (true, CSsl 0); (true, CGo 0); (true, CSent 0);
     (false, CRcvd 0 3); (false, CSsl 0); (false, CGo 0) ].
 
-Definition two_readers_trace : list (bool * clabel) :=
+(* (lz: with meta/fixes/C08_read_result_without_checkpoint.diff the first reader returns without the flush point) *)
+Definition two_readers_trace (lz : bool) : list (bool * clabel) :=
   handshake_trace ++
   [ (false, CSpawn MRead 10 []); (false, CSpawn MRead 10 []);
     (false, CSsl 1); (false, CGo 1); (false, CGo 1);
     (false, CSsl 2); (false, CGo 2);
     (true, CSpawn MWrite 0 [1%N]); (true, CSsl 1); (true, CGo 1); (true, CSent 1);
     (true, CSpawn MWrite 0 [2%N]); (true, CSsl 2); (true, CGo 2); (true, CSent 2);
-    (false, CRcvd 1 6); (false, CSsl 1); (false, CGo 1);
-    (false, CGo 2) ].
+    (false, CRcvd 1 6); (false, CSsl 1) ] ++ (if lz then [] else [(false, CGo 1)]) ++
+  [ (false, CGo 2) ].
 
 Definition unread_record (c : duplex) : bool :=
   match parse1 Dw (i_rbio (e_ideal (dB c))) with Some _ => true | None => false end.
 
-Lemma two_readers_stuck : forall cf,
-  exists c, dexec {| f_recheck := false; f_skiplock := false; f_close_flush := cf |} Ew Dw 4 duplex0 two_readers_trace = Some c /\
-            stuckb {| f_recheck := false; f_skiplock := false; f_close_flush := cf |} Ew Dw 4 c = true /\
+Lemma two_readers_stuck : forall cf lz,
+  exists c, dexec {| f_recheck := false; f_skiplock := false; f_close_flush := cf; f_lazyread := lz |} Ew Dw 4 duplex0 (two_readers_trace lz) = Some c /\
+            stuckb {| f_recheck := false; f_skiplock := false; f_close_flush := cf; f_lazyread := lz |} Ew Dw 4 c = true /\
             unread_record c = true /\
             e_got (dB c) = [1%N] /\ e_written (dA c) = [1%N; 2%N] /\
             map (fun tk => (t_meth tk, t_pc tk)) (tasks_of (dB c)) = [(MHandshake, PEnd (ROk 0)); (MRead, PEnd (ROk 1)); (MRead, PRecving)].
 Proof.
-  intros cf. destruct cf; eexists; vm_compute; repeat split; reflexivity.
+  intros cf lz. destruct cf, lz; eexists; vm_compute; repeat split; reflexivity.
 Qed.
 
 (* ------------------------------------------------------------------ the send lock and a call that has nothing to flush *)
@@ -134,7 +135,8 @@ Proof.
   - intros Ho. unfold TlsPump.step. rewrite (step_call_matching m b s x Hm Ha), Ho. cbv zeta.
     unfold flush_pc, wbio_empty. cbn [wbio set_wbio feeds]. rewrite Hw, Hf. reflexivity.
   - intros v Ho Hnw. unfold TlsPump.step. rewrite (step_call_matching m b s x Hm Ha), Ho. cbv zeta.
-    unfold flush_pc, wbio_empty. cbn [wbio set_wbio]. rewrite Hw, Hf. destruct m; try reflexivity. congruence.
+    unfold done_pc, flush_pc, wbio_empty. cbn [wbio set_wbio]. rewrite Hw, Hf.
+    destruct m; cbn [meth_eqb]; try (destruct (f_lazyread fl)); try reflexivity; congruence.
 Qed.
 
 (* without it: the task queues on the send lock although it has nothing to send — a reader cannot reach recv_into while
@@ -144,7 +146,7 @@ Lemma send_lock_taken_for_nothing : forall m b s x,
   (a_out x = SWantRead ->
      step m b s PCall (LSsl x) = Some (set_wbio s [], PFlush (KRead (feeds s)), []) /\
      (send_lock s = true -> go m (set_wbio s []) (PFlush (KRead (feeds s))) = None)) /\
-  (forall v bt, a_out x = SOk v -> m <> MWrite ->
+  (forall v bt, a_out x = SOk v -> m <> MWrite -> f_lazyread fl = false ->
      step m b s PCall (LSsl x) = Some (set_wbio s [], PFlush (KRet v), []) /\
      step m b (set_wbio s []) (PFlush (KRet v)) (LT (TCancel bt)) = Some (set_wbio s [], PEnd (RCancel bt), [])).
 Proof.
@@ -153,10 +155,41 @@ Proof.
     + unfold TlsPump.step. rewrite (step_call_matching m b s x Hm Ha), Ho. cbv zeta.
       unfold flush_pc, wbio_empty. cbn [wbio set_wbio feeds]. rewrite Hw, Hf. reflexivity.
     + intros L. unfold TlsPump.go. cbn [send_lock set_wbio]. rewrite L. reflexivity.
-  - intros v bt Ho Hnw. split.
+  - intros v bt Ho Hnw Hlz. split.
     + unfold TlsPump.step. rewrite (step_call_matching m b s x Hm Ha), Ho. cbv zeta.
-      unfold flush_pc, wbio_empty. cbn [wbio set_wbio]. rewrite Hw, Hf. destruct m; try reflexivity. congruence.
+      unfold done_pc, flush_pc, wbio_empty. cbn [wbio set_wbio]. rewrite Hw, Hf, Hlz. destruct m; try reflexivity. congruence.
     + reflexivity.
+Qed.
+
+(* ---- a successful read and the ciphertext of OTHER tasks pending in the outgoing BIO (finding
+   cancelled-recv-loses-plaintext-behind-pending-ciphertext).  With meta/fixes/C08_read_result_without_checkpoint.diff
+   (f_lazyread = true) ssl_object.read() -> bytes is followed by the return, in every state: no lock, no transport call,
+   no point at which a cancellation could be delivered. *)
+Lemma read_result_returned_at_once : forall b s x v,
+  f_lazyread fl = true -> a_meth x = MRead -> a_arg x = expected_arg MRead b s -> a_out x = SOk v ->
+  step MRead b s PCall (LSsl x) = Some (set_wbio s (wbio s ++ a_wdelta x), PEnd (ROk v), []).
+Proof.
+  intros b s x v Hlz Hm Ha Ho. unfold TlsPump.step. rewrite (step_call_matching MRead b s x Hm Ha), Ho. cbv zeta.
+  unfold done_pc. rewrite Hlz. reflexivity.
+Qed.
+
+(* without it (f_lazyread = false): with anything pending in the outgoing BIO -- for instance the ciphertext of a send_all
+   that queues behind another one parked by back-pressure -- the reader queues on the send lock holding its bytes, and a
+   cancellation delivered there ends the call: the bytes are gone (the SSL object will not return them again) *)
+Lemma read_result_lost_behind_pending_ciphertext : forall b s x v bt,
+  f_lazyread fl = false -> a_meth x = MRead -> a_arg x = expected_arg MRead b s -> a_out x = SOk v ->
+  wbio s ++ a_wdelta x <> [] ->
+  let s1 := set_wbio s (wbio s ++ a_wdelta x) in
+  step MRead b s PCall (LSsl x) = Some (s1, PFlush (KRet v), []) /\
+  (send_lock s = true -> go MRead s1 (PFlush (KRet v)) = None) /\
+  step MRead b s1 (PFlush (KRet v)) (LT (TCancel bt)) = Some (s1, PEnd (RCancel bt), []).
+Proof.
+  intros b s x v bt Hlz Hm Ha Ho Hne s1. split; [| split].
+  - unfold TlsPump.step. rewrite (step_call_matching MRead b s x Hm Ha), Ho. cbv zeta.
+    unfold done_pc, flush_pc, wbio_empty. rewrite Hlz. cbn [andb wbio set_wbio].
+    destruct (wbio s ++ a_wdelta x); [congruence |]. rewrite andb_false_r. reflexivity.
+  - intros L. unfold TlsPump.go. unfold s1. cbn [send_lock set_wbio]. rewrite L. reflexivity.
+  - reflexivity.
 Qed.
 
 End SendLockFacts.
